@@ -77,6 +77,11 @@ func (d *Decorator) ParseFile(filename string, src interface{}, mode parser.Mode
 	if perr != nil && f == nil {
 		return nil, perr
 	}
+	if perr != nil && !f.Pos().IsValid() {
+		// The package clause could not be parsed (e.g. empty input), so the parser has returned a
+		// placeholder file that has no position in the FileSet and can't be decorated.
+		return nil, perr
+	}
 
 	file, err := d.DecorateFile(f)
 	if err != nil {
